@@ -20,7 +20,7 @@ RULE = ("note values: the 80 documented values (10 bases x dots 0..4 plain + 10 
         "fractions, 0, negatives, inf, nan, each predicate run under a deterministic budget of 10**5 traced line events. "
         "Non-trivial: dotted or tuplet value; perturbed value with e != 0; pair containing a dotted/tuplet value; "
         "meter whose beat unit is a non-integer (incl. inf/nan) or >= 2**53."
-        ' Also: near-identical floats are analysed before each exact value; counts above 2**53 and arbitrary big integers; beat units given as exact Fraction / Decimal numbers; integer powers of two (and near misses) beyond the float range, up to 2**5000; values with 6-12 dots, which lie within 1% of the next shorter undotted value.')
+        ' Also: near-identical floats are analysed before each exact value; counts above 2**53 and arbitrary big integers; beat units given as exact Fraction / Decimal numbers; integer powers of two (and near misses) beyond the float range, up to 2**5000; values with 6-12 dots, which lie within 1% of the next shorter undotted value. Every whole number 1..400 (int and float) against the one recognised value whose 1% window it lies in.')
 ASSUMPTIONS = [
     "values handed to mingus are the floats its own constructors (value.dots/triplet/quintuplet/septuplet) produce; "
     "the model computes with the exact rationals in vlib/ref/values.py",
